@@ -19,6 +19,7 @@
 #include <parmcb/spvecgf2.hpp>
 #include <parmcb/spvecfp.hpp>
 #include <deque>
+#include <limits>
 #include <memory>
 #include <map>
 #include <new>
@@ -72,11 +73,12 @@ struct GF2MachineT {
     std::vector<std::set<U>> sets;                           // mask -> std::set of real coordinates
     std::string name() const { return "SpVecGF2"; }
 
-    // sizes: group sizes; interleaved: real coordinates dealt round-robin instead of consecutively; huge: last group is {2^40}
-    GF2MachineT(int R, const std::vector<int> &sizes, bool interleaved, bool huge, const std::string &cfgname) : R(R), D((int) sizes.size()), cfgname(cfgname), ref(R, 0), unspec(R, 0) {
+    // sizes: group sizes; interleaved: real coordinates dealt round-robin instead of consecutively; huge: 1 = last group is {2^40}
+    // (2^31+5 for 32-bit U), 2 = last group is the largest value of U (the coordinate a sentinel would collide with)
+    GF2MachineT(int R, const std::vector<int> &sizes, bool interleaved, int huge, const std::string &cfgname) : R(R), D((int) sizes.size()), cfgname(cfgname), ref(R, 0), unspec(R, 0) {
         group.resize(D);
         std::vector<int> left = sizes; std::size_t next = 0; int total = 0; for (int x : sizes) total += x;
-        if (huge) { group[D - 1].push_back(sizeof(U) >= 8 ? HUGE_COORD : (std::size_t) 0x80000005ul); total -= left[D - 1]; left[D - 1] = 0; }
+        if (huge) { group[D - 1].push_back(huge == 2 ? (std::size_t) std::numeric_limits<U>::max() : sizeof(U) >= 8 ? HUGE_COORD : (std::size_t) 0x80000005ul); total -= left[D - 1]; left[D - 1] = 0; }
         if (!interleaved) { for (int c = 0; c < D; ++c) for (int k = 0; k < left[c]; ++k) group[c].push_back(next++); }
         else { int placed = 0; while (placed < total) for (int c = 0; c < D; ++c) if (left[c] > 0) { group[c].push_back(next++); --left[c]; ++placed; } }
         concrete.resize(1u << D); sets.resize(1u << D);
@@ -159,9 +161,10 @@ template<class M>
 static M *make_gf2_t(const std::string &cfg) {
     auto t = vr::split(cfg, ':');
     int Rn = atoi(t[1].c_str());
-    if (t[0] == "gf2" || t[0] == "gf2u32") { int D = atoi(t[2].c_str()); return new M(Rn, std::vector<int>(D + 1, 1), false, true, cfg); }
+    if (t[0] == "gf2" || t[0] == "gf2u32") { int D = atoi(t[2].c_str()); return new M(Rn, std::vector<int>(D + 1, 1), false, 1, cfg); }
+    if (t[0].rfind("gf2max", 0) == 0) { int D = atoi(t[2].c_str()); return new M(Rn, std::vector<int>(D + 1, 1), false, 2, cfg); }      // gf2max / gf2maxu32 / gf2maxu16 / gf2maxu8
     std::vector<int> sizes; for (auto &x : vr::split(t[2], '-')) sizes.push_back(atoi(x.c_str()));
-    return new M(Rn, sizes, t.size() > 3 && t[3] == "i", false, cfg);
+    return new M(Rn, sizes, t.size() > 3 && t[3] == "i", 0, cfg);
 }
 static GF2Machine *make_gf2(const std::string &cfg) { return make_gf2_t<GF2Machine>(cfg); }
 
@@ -346,7 +349,13 @@ int main(int argc, char **argv) {
     if (A.has("replay-case")) {
         auto kv = parse_kv(A.get("replay-case"));
         int Rn = atoi(kv["R"].c_str()), D = atoi(kv["D"].c_str());
-        if (kv["class"] == "SpVecGF2") { std::unique_ptr<GF2Machine> m(make_gf2(kv["cfg"])); return replay(R, *m, kv["ops"]); }
+        if (kv["class"] == "SpVecGF2") {
+            std::string k = vr::split(kv["cfg"], ':')[0];
+            if (k == "gf2u32" || k == "gf2gu32" || k == "gf2maxu32") { std::unique_ptr<GF2MachineT<std::uint32_t>> m(make_gf2_t<GF2MachineT<std::uint32_t>>(kv["cfg"])); return replay(R, *m, kv["ops"]); }
+            if (k == "gf2maxu16") { std::unique_ptr<GF2MachineT<std::uint16_t>> m(make_gf2_t<GF2MachineT<std::uint16_t>>(kv["cfg"])); return replay(R, *m, kv["ops"]); }
+            if (k == "gf2maxu8") { std::unique_ptr<GF2MachineT<std::uint8_t>> m(make_gf2_t<GF2MachineT<std::uint8_t>>(kv["cfg"])); return replay(R, *m, kv["ops"]); }
+            std::unique_ptr<GF2Machine> m(make_gf2(kv["cfg"])); return replay(R, *m, kv["ops"]);
+        }
         long p = atol(kv["p"].c_str());
         if (kv["P"] == "int") { FPMachine<int> m(Rn, D, p, "int"); return replay(R, m, kv["ops"]); }
         if (kv["P"] == "long") { FPMachine<long> m(Rn, D, p, "long"); return replay(R, m, kv["ops"]); }
@@ -361,7 +370,10 @@ int main(int argc, char **argv) {
     auto work = [&](uint64_t u, uint64_t) {
         auto t = vr::split(cfgs[u], ':');
         Totals tot;
-        if (t[0] == "gf2" || t[0] == "gf2g") { std::unique_ptr<GF2Machine> m(make_gf2(cfgs[u])); bfs(R, *m, tot, max_states); }
+        if (t[0] == "gf2" || t[0] == "gf2g" || t[0] == "gf2max") { std::unique_ptr<GF2Machine> m(make_gf2(cfgs[u])); bfs(R, *m, tot, max_states); }
+        else if (t[0] == "gf2maxu32") { std::unique_ptr<GF2MachineT<std::uint32_t>> m(make_gf2_t<GF2MachineT<std::uint32_t>>(cfgs[u])); bfs(R, *m, tot, max_states); }
+        else if (t[0] == "gf2maxu16") { std::unique_ptr<GF2MachineT<std::uint16_t>> m(make_gf2_t<GF2MachineT<std::uint16_t>>(cfgs[u])); bfs(R, *m, tot, max_states); }
+        else if (t[0] == "gf2maxu8") { std::unique_ptr<GF2MachineT<std::uint8_t>> m(make_gf2_t<GF2MachineT<std::uint8_t>>(cfgs[u])); bfs(R, *m, tot, max_states); }
         else if (t[0] == "gf2u32" || t[0] == "gf2gu32") { std::unique_ptr<GF2MachineT<std::uint32_t>> m(make_gf2_t<GF2MachineT<std::uint32_t>>(cfgs[u])); bfs(R, *m, tot, max_states); }
         else if (t[1] == "int") { FPMachine<int> m(atoi(t[3].c_str()), atoi(t[4].c_str()), atol(t[2].c_str()), "int"); bfs(R, m, tot, max_states); }
         else if (t[1] == "long") { FPMachine<long> m(atoi(t[3].c_str()), atoi(t[4].c_str()), atol(t[2].c_str()), "long"); bfs(R, m, tot, max_states); }
